@@ -76,6 +76,15 @@ def run_oracle(case):
                 bad.append(('a rejected edit changed the model: %r raised %r, observables changed: %s'
                             % (op, r[1:], ', '.join(diff)), {'op_index': j, 'changed': diff}))
             continue
+        # no variable may have two defining equations (assignment and / or ODE)
+        seen = {}
+        for eq in im.model.equations:
+            v = eq.lhs.args[0] if eq.lhs.is_Derivative else eq.lhs
+            if id(v) in seen:
+                bad.append(('after %r variable %s is defined by two equations of Model.equations: %s and %s'
+                            % (op, v, seen[id(v)], eq), {'op_index': j}))
+                break
+            seen[id(v)] = eq
         try:
             fo, co = fresh_obs(im)
         except Exception as e:
